@@ -1,4 +1,9 @@
 pub mod c01;
+pub mod c02;
+pub mod c03;
+pub mod c04;
+pub mod c05;
+pub mod common;
 
 use crate::runner::{Ctx, Tier, Verdict};
 use serde_json::Value;
@@ -11,7 +16,7 @@ pub struct PropDef {
 }
 
 pub fn all() -> Vec<PropDef> {
-    vec![c01::def()]
+    vec![c01::def(), c02::def(), c03::def(), c04::def(), c05::def()]
 }
 
 pub fn find(id: &str) -> Option<PropDef> {
